@@ -27,6 +27,7 @@ const W_DISABLED: u64 = 8;
 const W_CLAMPED: u64 = 16;
 const W_RESOLVED_AFTER_TIMEOUT: u64 = 32;
 const W_LATE_PONG: u64 = 64;
+const W_HUNG: u64 = 128;
 
 const TOL: Duration = Duration::from_millis(3);
 
@@ -52,6 +53,9 @@ struct Scn {
     rounds: Vec<Delay>,
     /// after the scripted rounds: true = answer at once forever, false = stay silent
     prompt_tail: bool,
+    /// after the scripted rounds the peer hangs: it neither answers nor READS any more, while the local application
+    /// has a burst of datagrams to send, so the transport's send side fills up (link capacity 2)
+    hung_tail: bool,
 }
 
 fn od(ms: u64) -> OptionalDuration {
@@ -95,8 +99,23 @@ async fn run_async(sc: &Scn, render: bool) -> RunOutput {
         o = o.keepalive_timeout(od(sc.timeout));
     }
     let cfg = SideCfg { opts: o, rng: vec![] };
-    let mut w = World::one(UNBOUNDED_CAP, 0, &cfg);
+    let mut w = World::one(if sc.hung_tail { 2 } else { UNBOUNDED_CAP }, 0, &cfg);
     let mut raw = Raw::new(1, w.sim.link.clone());
+    let hang = std::rc::Rc::new(tokio::sync::Notify::new());
+    let mut hung_at: Option<Duration> = None;
+    if sc.hung_tail {
+        let mux = w.mux(0);
+        let hang = hang.clone();
+        w.sim.spawn("burst.a", crate::apps::group_of(0), async move {
+            hang.notified().await;
+            for n in 0..6u8 {
+                let d = penguin_mux::Datagram { flow_id: 9, target_host: bytes::Bytes::from_static(b"h"), target_port: 1, data: bytes::Bytes::from(vec![n; 3]) };
+                if mux.send_datagram(d).await.is_err() {
+                    break;
+                }
+            }
+        });
+    }
     w.spawn_dgram_receiver(0, "dgrecv.a", usize::MAX, false);
     w.spawn_acceptor(0, usize::MAX, std::collections::BTreeMap::new());
     let enabled = sc.interval != 0;
@@ -120,12 +139,21 @@ async fn run_async(sc: &Scn, render: bool) -> RunOutput {
             break;
         }
         let now = Instant::now();
-        // the peer takes in what reached it
-        for m in raw.pump() {
+        // the peer takes in what reached it (a hung peer reads nothing any more)
+        for m in if hung_at.is_some() { Vec::new() } else { raw.pump() } {
+            if hung_at.is_some() {
+                break; // messages that arrived in the same batch after the hang are not looked at
+            }
             if let RMsg::Ping = m {
                 wit |= W_PING_SEEN;
                 let k = pings.len();
                 pings.push(now - t0);
+                if sc.hung_tail && k >= sc.rounds.len() {
+                    hung_at = Some(now - t0);
+                    wit |= W_HUNG;
+                    hang.notify_one();
+                    continue;
+                }
                 let d = if k < sc.rounds.len() { sc.rounds[k] } else if sc.prompt_tail { Delay::Zero } else { Delay::Never };
                 let base = t_eff.unwrap_or(Duration::from_millis(sc.interval.max(1000)));
                 let delay = match d {
@@ -217,7 +245,7 @@ async fn run_async(sc: &Scn, render: bool) -> RunOutput {
         }
         let expected_pings = (alive_until.as_millis() / i.as_millis()) as usize + 1;
         // (the tick at which the timeout is detected sends no ping; a first ping after one interval is one fewer)
-        if pings.len() + 2 < expected_pings || pings.len() > expected_pings {
+        if hung_at.is_none() && (pings.len() + 2 < expected_pings || pings.len() > expected_pings) {
             push_viol(&mut viol, "ping.count", format!("{} Ping(s) in {alive_until:?} of life with interval {i:?} (expected about {expected_pings})", pings.len()));
         }
         // Only pongs the task actually took out of its socket count: after giving up it does not read any more.
@@ -242,7 +270,7 @@ async fn run_async(sc: &Scn, render: bool) -> RunOutput {
                     // (an answer exactly at the deadline can coincide with the check; only strictly earlier answers are the premise)
                     { let _ = (p, e); matches!(d, Delay::Zero | Delay::Half) }
                 });
-                if all_in_time {
+                if all_in_time && hung_at.is_none() {
                     push_viol(&mut viol, "timeout.false-positive", format!("every Ping was answered within the timeout {te:?} (history {:?}), yet the connection was declared dead at {e:?}", sc.rounds));
                 }
             }
@@ -309,6 +337,7 @@ pub fn run(args: &Args) -> Report {
     cfgs.extend([(1500, 1000), (2900, 2100), (500, 300), (1000, 1500), (1200, 1200), (700, 0)]);
     cfgs.push((0, 0));
     cfgs.push((0, 2000));
+    let cfgs2 = cfgs.clone();
     for (interval, timeout) in cfgs {
         // every history of pong delays of length exactly `rounds` (shorter ones are prefixes followed by the tail policy)
         let total = DELAYS.len().pow(rounds as u32);
@@ -318,8 +347,24 @@ pub fn run(args: &Args) -> Report {
                 if interval == 0 && (code != 0 || prompt_tail) {
                     continue;
                 }
-                let sc = Scn { interval, timeout, rounds: hist.clone(), prompt_tail };
+                let sc = Scn { interval, timeout, rounds: hist.clone(), prompt_tail, hung_tail: false };
                 let label = format!("I={interval}ms T={}ms history={hist:?} then {}", if timeout == 0 { "NONE".to_string() } else { timeout.to_string() }, if prompt_tail { "prompt" } else { "silent" });
+                cases.push(Case { try_unbounded: false, max_k: u32::MAX, label, exec: Box::new(move |r| exec(&sc, r)) });
+            }
+        }
+    }
+    // the peer hangs (stops reading and answering) after k scripted rounds while the send side is congested
+    for &(interval, timeout) in &cfgs2 {
+        if interval == 0 {
+            continue;
+        }
+        let hung_rounds = if thorough { rounds } else { 2 };
+        for len in 0..=hung_rounds {
+            let total = 2usize.pow(len as u32);
+            for code in 0..total {
+                let hist: Vec<Delay> = (0..len).map(|r| if (code >> r) & 1 == 0 { Delay::Zero } else { Delay::Half }).collect();
+                let sc = Scn { interval, timeout, rounds: hist.clone(), prompt_tail: false, hung_tail: true };
+                let label = format!("I={interval}ms T={}ms history={hist:?} then the peer hangs (reads nothing), send side congested", if timeout == 0 { "NONE".to_string() } else { timeout.to_string() });
                 cases.push(Case { try_unbounded: false, max_k: u32::MAX, label, exec: Box::new(move |r| exec(&sc, r)) });
             }
         }
@@ -333,11 +378,11 @@ pub fn run(args: &Args) -> Report {
         fault: 0,
         total_wall: Duration::from_secs(if thorough { 1500 } else { 50 }),
         max_execs_per_case: 5_000,
-        required_witnesses: W_TIMEOUT | W_SURVIVED | W_PING_SEEN | W_DISABLED | W_CLAMPED | W_RESOLVED_AFTER_TIMEOUT | W_LATE_PONG,
+        required_witnesses: W_TIMEOUT | W_SURVIVED | W_PING_SEEN | W_DISABLED | W_CLAMPED | W_RESOLVED_AFTER_TIMEOUT | W_LATE_PONG | W_HUNG,
         adaptive: thorough,
-        witness_names: &[("timeout_detected", W_TIMEOUT), ("survived_to_horizon", W_SURVIVED), ("ping_seen", W_PING_SEEN), ("keepalive_disabled_case", W_DISABLED), ("timeout_clamped_to_interval", W_CLAMPED), ("operations_resolved_after_timeout", W_RESOLVED_AFTER_TIMEOUT), ("late_pong_tolerated", W_LATE_PONG)],
+        witness_names: &[("timeout_detected", W_TIMEOUT), ("survived_to_horizon", W_SURVIVED), ("ping_seen", W_PING_SEEN), ("keepalive_disabled_case", W_DISABLED), ("timeout_clamped_to_interval", W_CLAMPED), ("operations_resolved_after_timeout", W_RESOLVED_AFTER_TIMEOUT), ("late_pong_tolerated", W_LATE_PONG), ("peer_hung_with_congested_send_side", W_HUNG)],
     };
-    rep.rule = "psim in virtual time: one real endpoint whose Options come from the public builders, its real task future polled by hand inside a paused-clock tokio runtime (timers fire by auto-advance, TimestampProvider reads the same clock), a raw peer answering Ping k after a scripted delay; EVERY history of R delays over {0, T/2, T, T+10 ms, never} followed by a silent or prompt tail, for every (I,T) pair incl. T<I (clamped), T=I, T=NONE and I=NONE; timer-vs-pong races at equal instants are scheduling choices (<= k deviations). Oracle: Ping k leaves at k*I; disabled => no Ping, no end; the task ends only with KeepaliveTimeout, at a time t with last_pong+T_eff <= t <= last_pong+T_eff+I; never when every Ping was answered within T; no silent gap > T_eff+I survives; after the timeout the pending accept/get_datagram resolve although the transport stays silent".into();
+    rep.rule = "psim in virtual time: one real endpoint whose Options come from the public builders, its real task future polled by hand inside a paused-clock tokio runtime (timers fire by auto-advance, TimestampProvider reads the same clock), a raw peer answering Ping k after a scripted delay; EVERY history of R delays over {0, T/2, T, T+10 ms, never} followed by a silent or prompt tail (plus: after every history of <= 2 (thorough: R) in-time answers the peer HANGS, i.e. stops reading as well, while the application sends a burst into a transport of capacity 2, so the send side is congested when the timeout is due), for every (I,T) pair incl. T<I (clamped), T=I, T=NONE and I=NONE; timer-vs-pong races at equal instants are scheduling choices (<= k deviations). Oracle: Ping k leaves at k*I; disabled => no Ping, no end; the task ends only with KeepaliveTimeout, at a time t with last_pong+T_eff <= t <= last_pong+T_eff+I; never when every Ping was answered within T; no silent gap > T_eff+I survives; after the timeout the pending accept/get_datagram resolve although the transport stays silent".into();
     rep.assumptions = vec!["tolerance 3 ms for tokio's millisecond timer rounding".into(), "the interval is set before the timeout (documented builder order)".into()];
     run_cases(args, &mut rep, cases, &plan);
     rep
